@@ -1,35 +1,44 @@
 (* C16 - Buffered and text stream wrappers are transparent to chunking.
    This file contains only statements closed by `exact` and their Print Assumptions.
-   Part 1: pure/Buffered.v (BufferedByteReceiveStream); part 2: pure/Text.v (TextReceiveStream / TextSendStream). *)
+   Part 1: pure/Buffered.v (BufferedByteReceiveStream, HEAD = pinned tree + fixes F27 F28 F29);
+   part 2: pure/Text.v (TextReceiveStream / TextSendStream).
+   `step_log s o = (s', r, lg)`: one call; lg = the bytes that entered the wrapper during it, in order.
+   `Until d m fs`: receive_until(d, m) during whose waits other tasks call feed_data(fs_1), feed_data(fs_2), ... *)
 From AV Require Import Base Buffered BufferedProofs.
 
-(* ---- 1. conservation: for every state (any buffer, any chunk list, either kind of wrapped stream) and every op
-        sequence, the bytes handed out plus the delimiters consumed, followed by the buffer, are exactly the fed and
-        received bytes in arrival order ---- *)
+(* ---- 1. conservation: for every state (any buffer, any chunk list incl. empty items, either kind of wrapped stream),
+        every op sequence and every feed_data made between OR DURING calls: the bytes handed out plus the delimiters
+        consumed, followed by the buffer, are exactly the bytes that arrived, in arrival order ---- *)
 Theorem C16_buf_conservation : forall (ops : list op) (s : st),
   buf s ++ arrived_run s ops = consumed_run s ops ++ buf (final step s ops).
 Proof. exact buf_conservation. Qed.
 Print Assumptions C16_buf_conservation.
 
 Theorem C16_buf_source_order : forall (ops : list op) (s : st),
-  received_run s ops ++ concat (src (final step s ops)) = concat (src s).
+  exists pulled, pulled ++ concat (src (final step s ops)) = concat (src s).
 Proof. exact buf_source_order. Qed.
 Print Assumptions C16_buf_source_order.
 
 Theorem C16_buf_conservation_total : forall (ops : list op) (s : st),
-  forallb (fun o => negb (is_feed o)) ops = true ->
+  forallb no_feed ops = true ->
   consumed_run s ops ++ buf (final step s ops) ++ concat (src (final step s ops)) = buf s ++ concat (src s).
 Proof. exact buf_conservation_total. Qed.
 Print Assumptions C16_buf_conservation_total.
 
-(* one call: what it read from the wrapped stream is a prefix of what the stream held; fed ++ read bytes go behind the
-   buffer; the result (and delimiter) comes off the front; the loops of the model never run out of fuel *)
-Theorem C16_buf_step_conservation : forall (s : st) (o : op) (s' : st) (r : res), step s o = (s', r) ->
+(* one call: result (and delimiter) come off the front, everything that arrived goes behind the buffer; the arrival log
+   is pinned to the environment: fed data, what left the wrapped stream, or - for receive_until - the interleaving of
+   the feeds and chunks of the k fetches it made; the loops of the model never run out of fuel *)
+Theorem C16_buf_step_conservation : forall (s : st) (o : op) (s' : st) (r : res) (lg : list Z),
+  step_log s o = (s', r, lg) ->
   knd s' = knd s /\ r <> RFuel /\
   (chunks_nonempty (src s) -> chunks_nonempty (src s')) /\
-  exists pulled,
-    concat (src s) = pulled ++ concat (src s') /\
-    buf s ++ fed_of o ++ pulled = consumed_of o r ++ buf s'.
+  buf s ++ lg = consumed_of o r ++ buf s' /\
+  (exists pulled, concat (src s) = pulled ++ concat (src s')) /\
+  match o with
+  | Feed d => lg = d /\ src s' = src s
+  | Until d m fs => exists k, src s' = fetch_rest k (knd s) (src s) /\ lg = fetch_arrivals k (knd s) (src s) fs
+  | _ => concat (src s) = lg ++ concat (src s')
+  end.
 Proof. exact step_conservation. Qed.
 Print Assumptions C16_buf_step_conservation.
 
@@ -45,14 +54,15 @@ Theorem C16_buf_byte_stream_model : forall (n : nat) (c : list Z) (r : list (lis
 Proof. exact (fun n c r => conj (pull_byte_fits n c r) (fun p r' => pull_byte_bound n (c :: r) p r')). Qed.
 Print Assumptions C16_buf_byte_stream_model.
 
-(* ---- 2. receive(n): ValueError for n < 1; otherwise 1..n bytes (from the buffer alone when it is not empty), or
-        EndOfStream with nothing buffered and nothing left ---- *)
+(* ---- 2. receive(n): ValueError for n < 1; otherwise 1..n bytes (from the buffer alone when it is not empty) for
+        EVERY chunking of an object stream, empty items included (a byte stream must honour its contract of never
+        returning b""); EndOfStream only with nothing buffered and no byte left ---- *)
 Theorem C16_buf_receive_spec : forall (s : st) (n : Z) (s' : st) (r : res), step s (Receive n) = (s', r) ->
   ((n < 1)%Z -> r = RValueError /\ s' = s) /\
-  ((1 <= n)%Z -> chunks_nonempty (src s) ->
+  ((1 <= n)%Z -> (knd s = KByte -> chunks_nonempty (src s)) ->
      (exists x, r = RBytes x /\ (1 <= length x <= Z.to_nat n)%nat /\
                 (buf s <> [] -> x = firstn (Z.to_nat n) (buf s) /\ src s' = src s)) \/
-     (r = REnd /\ buf s = [] /\ src s = [] /\ s' = s)).
+     (r = REnd /\ buf s = [] /\ concat (src s) = [] /\ buf s' = [] /\ src s' = [])).
 Proof. exact buf_receive_spec. Qed.
 Print Assumptions C16_buf_receive_spec.
 
@@ -61,80 +71,120 @@ Theorem C16_buf_chunks_nonempty_invariant : forall (ops : list op) (s : st),
 Proof. exact chunks_nonempty_invariant. Qed.
 Print Assumptions C16_buf_chunks_nonempty_invariant.
 
-(* ---- 3. receive_exactly(n), n >= 0: exactly n bytes off the front of the stream, or IncompleteRead, which happens
-        iff the stream ends first; then everything read is in the buffer ---- *)
-Theorem C16_buf_exactly_spec : forall (s : st) (n : Z) (s' : st) (r : res),
-  (0 <= n)%Z -> step s (Exactly n) = (s', r) ->
-  ((exists x, r = RBytes x /\ length x = Z.to_nat n /\
-              x ++ buf s' ++ concat (src s') = buf s ++ concat (src s)) \/
-   (r = RIncomplete /\ src s' = [] /\ buf s' = buf s ++ concat (src s))) /\
-  (r = RIncomplete <-> (Z.of_nat (length (buf s ++ concat (src s))) < n)%Z).
+(* ---- 3. receive_exactly(n): ValueError and nothing touched for n < 0; otherwise exactly n bytes off the front of the
+        stream, or IncompleteRead, which happens iff the stream ends first; then everything read is in the buffer ---- *)
+Theorem C16_buf_exactly_spec : forall (s : st) (n : Z) (s' : st) (r : res), step s (Exactly n) = (s', r) ->
+  ((n < 0)%Z -> r = RValueError /\ s' = s) /\
+  ((0 <= n)%Z ->
+   ((exists x, r = RBytes x /\ length x = Z.to_nat n /\
+               x ++ buf s' ++ concat (src s') = buf s ++ concat (src s)) \/
+    (r = RIncomplete /\ src s' = [] /\ buf s' = buf s ++ concat (src s))) /\
+   (r = RIncomplete <-> (Z.of_nat (length (buf s ++ concat (src s))) < n)%Z)).
 Proof. exact buf_exactly_spec. Qed.
 Print Assumptions C16_buf_exactly_spec.
 
-(* ---- 4. receive_until(d, m).  `pieces` are the reads made by the call: a read happens only while the buffer holds
-        no delimiter and fewer than m bytes; the call ends with the first buffer that contains the delimiter (result =
-        everything before its FIRST occurrence, delimiter removed, rest kept), or has >= m bytes (DelimiterNotFound),
-        or cannot be extended (IncompleteRead) ---- *)
-Theorem C16_buf_until_spec : forall (s : st) (d : list Z) (m : Z) (s' : st) (r : res),
-  step s (Until d m) = (s', r) ->
-  exists pieces,
-    concat (src s) = concat pieces ++ concat (src s') /\
-    (forall k, (k < length pieces)%nat ->
-       ~ occurs d (buf s ++ concat (firstn k pieces)) /\
-       (Z.of_nat (length (buf s ++ concat (firstn k pieces))) < m)%Z) /\
+(* ---- 4. receive_until(d, m) with feeds fs during its waits.  The call makes k fetches; a fetch happens only while
+        what has arrived so far holds no delimiter and fewer than m bytes; the call ends with the first buffer that
+        contains the delimiter (result = everything before its FIRST occurrence, delimiter removed, rest kept), or has
+        >= m bytes (DelimiterNotFound), or when a fetch meets the end of the stream (IncompleteRead; what was fed during
+        that last wait stays buffered unsearched) ---- *)
+Theorem C16_buf_until_spec : forall (s : st) (d : list Z) (m : Z) (fs : list (list Z)) (s' : st) (r : res) (lg : list Z),
+  step_log s (Until d m fs) = (s', r, lg) ->
+  exists k,
+    src s' = fetch_rest k (knd s) (src s) /\ lg = fetch_arrivals k (knd s) (src s) fs /\
+    (forall j, (j < k)%nat ->
+       ~ occurs d (buf s ++ fetch_arrivals j (knd s) (src s) fs) /\
+       (Z.of_nat (length (buf s ++ fetch_arrivals j (knd s) (src s) fs)) < m)%Z) /\
+    (chunks_nonempty (src s) -> chunks_nonempty (src s')) /\
     match r with
-    | RBytes x => buf s ++ concat pieces = x ++ d ++ buf s' /\
-                  (forall j, (j < length x)%nat -> ~ occurs_at d (buf s ++ concat pieces) j)
-    | RNotFound => buf s' = buf s ++ concat pieces /\ ~ occurs d (buf s') /\ (m <= Z.of_nat (length (buf s')))%Z
-    | RIncomplete => buf s' = buf s ++ concat pieces /\ src s' = [] /\ ~ occurs d (buf s') /\
-                     (Z.of_nat (length (buf s')) < m)%Z
+    | RBytes x => buf s ++ lg = x ++ d ++ buf s' /\
+                  (forall j, (j < length x)%nat -> ~ occurs_at d (buf s ++ lg) j)
+    | RNotFound => buf s' = buf s ++ lg /\ ~ occurs d (buf s') /\ (m <= Z.of_nat (length (buf s')))%Z
+    | RIncomplete => buf s' = buf s ++ lg /\ src s' = [] /\
+                     exists k0, k = S k0 /\
+                       lg = fetch_arrivals k0 (knd s) (src s) fs ++ hd [] (skipn k0 fs)
     | _ => False
     end.
 Proof. exact buf_until_spec. Qed.
 Print Assumptions C16_buf_until_spec.
 
-Theorem C16_buf_until_result : forall (s : st) (d : list Z) (m : Z) (s' : st) (x : list Z),
-  step s (Until d m) = (s', RBytes x) ->
-  buf s ++ concat (src s) = x ++ d ++ buf s' ++ concat (src s') /\
-  (forall j, (j < length x)%nat -> ~ occurs_at d (buf s ++ concat (src s)) j) /\
+(* receive_until never includes the delimiter - for ALL feeds interleaved with the call *)
+Theorem C16_buf_until_result : forall (s : st) (d : list Z) (m : Z) (fs : list (list Z)) (s' : st) (x lg : list Z),
+  step_log s (Until d m fs) = (s', RBytes x, lg) ->
+  buf s ++ lg = x ++ d ++ buf s' /\
+  (forall j, (j < length x)%nat -> ~ occurs_at d (buf s ++ lg) j) /\
   (d <> [] -> ~ occurs d x).
 Proof. exact buf_until_result. Qed.
 Print Assumptions C16_buf_until_result.
 
+Theorem C16_buf_until_result_stream : forall (s : st) (d : list Z) (m : Z) (s' : st) (x lg : list Z),
+  step_log s (Until d m []) = (s', RBytes x, lg) ->
+  buf s ++ concat (src s) = x ++ d ++ buf s' ++ concat (src s') /\
+  (forall j, (j < length x)%nat -> ~ occurs_at d (buf s ++ concat (src s)) j).
+Proof. exact buf_until_result_stream. Qed.
+Print Assumptions C16_buf_until_result_stream.
+
 (* DelimiterNotFound only if no occurrence of the delimiter lies within the first m bytes of the stream *)
-Theorem C16_buf_until_notfound : forall (s : st) (d : list Z) (m : Z) (s' : st),
-  step s (Until d m) = (s', RNotFound) ->
+Theorem C16_buf_until_notfound : forall (s : st) (d : list Z) (m : Z) (s' : st) (lg : list Z),
+  step_log s (Until d m []) = (s', RNotFound, lg) ->
   forall i, occurs_at d (buf s ++ concat (src s)) i -> (m < Z.of_nat (i + length d))%Z.
 Proof. exact buf_until_notfound. Qed.
 Print Assumptions C16_buf_until_notfound.
 
-Theorem C16_buf_until_incomplete : forall (s : st) (d : list Z) (m : Z) (s' : st),
-  step s (Until d m) = (s', RIncomplete) ->
+Theorem C16_buf_until_notfound_fed : forall (s : st) (d : list Z) (m : Z) (fs : list (list Z)) (s' : st) (lg : list Z),
+  step_log s (Until d m fs) = (s', RNotFound, lg) ->
+  buf s' = buf s ++ lg /\ ~ occurs d (buf s') /\ (m <= Z.of_nat (length (buf s')))%Z.
+Proof. exact buf_until_notfound_fed. Qed.
+Print Assumptions C16_buf_until_notfound_fed.
+
+Theorem C16_buf_until_incomplete : forall (s : st) (d : list Z) (m : Z) (s' : st) (lg : list Z),
+  step_log s (Until d m []) = (s', RIncomplete, lg) ->
   ~ occurs d (buf s ++ concat (src s)) /\ (Z.of_nat (length (buf s ++ concat (src s))) < m)%Z.
 Proof. exact buf_until_incomplete. Qed.
 Print Assumptions C16_buf_until_incomplete.
 
-(* the search-offset lemma, and its use: receive_until equals the loop that searches the whole buffer every time *)
+(* the search-offset lemma, and its use: receive_until equals the loop that searches the whole buffer every time,
+   whatever is fed while it waits (the offset is taken from the size searched BEFORE the wait) *)
 Theorem C16_buf_search_offset : forall (d old data : list Z) (k : nat),
   (forall j, ~ occurs_at d old j) -> (k < length old + 1 - length d)%nat -> ~ occurs_at d (old ++ data) k.
 Proof. exact search_offset_complete. Qed.
 Print Assumptions C16_buf_search_offset.
 
-Theorem C16_buf_until_offset_sound : forall (s : st) (d : list Z) (m : Z),
-  step s (Until d m) = until_naive (fuel_of s) s d m.
+Theorem C16_buf_until_offset_sound : forall (s : st) (d : list Z) (m : Z) (fs : list (list Z)),
+  step_log s (Until d m fs) = until_naive (fuel_of s) s d m fs.
 Proof. exact until_offset_sound. Qed.
 Print Assumptions C16_buf_until_offset_sound.
 
-(* ---- 5. a call that fails (EndOfStream, IncompleteRead, DelimiterNotFound, ValueError) hands out nothing and
-        leaves buffer ++ wrapped stream unchanged: what it read stays in the buffer, in order ---- *)
-Theorem C16_buf_fail_consumes_nothing : forall (s : st) (o : op) (s' : st) (r : res),
-  step s o = (s', r) -> failed r ->
+(* ---- 5. a call that fails (EndOfStream, IncompleteRead, DelimiterNotFound, ValueError - also for a negative count or
+        a non-positive max_bytes) hands out nothing; what arrived during it is in the buffer, in order; without feeds
+        during the call buffer ++ wrapped stream is unchanged ---- *)
+Theorem C16_buf_fail_consumes_nothing : forall (s : st) (o : op) (s' : st) (r : res) (lg : list Z),
+  step_log s o = (s', r, lg) -> failed r ->
   consumed_of o r = [] /\
-  buf s' ++ concat (src s') = buf s ++ concat (src s) /\
-  (exists extra, buf s' = buf s ++ extra /\ concat (src s) = extra ++ concat (src s')).
+  buf s' = buf s ++ lg /\
+  (exists pulled, concat (src s) = pulled ++ concat (src s')) /\
+  (no_feed o = true -> buf s' ++ concat (src s') = buf s ++ concat (src s)).
 Proof. exact buf_fail_consumes_nothing. Qed.
 Print Assumptions C16_buf_fail_consumes_nothing.
+
+(* ---- the tree before the fixes violated these clauses (F27, F28, F29: fixed in /repo) ---- *)
+Theorem C16_buf_until_feed_refuted_pinned : exists s d m fs s' x lg,
+  step_pinned s (Until d m fs) = (s', RBytes x, lg) /\ d <> [] /\ occurs d x.
+Proof. exact until_feed_refuted_pinned. Qed.
+Print Assumptions C16_buf_until_feed_refuted_pinned.
+
+Theorem C16_buf_receive_empty_refuted_pinned : exists s n s' lg,
+  knd s = KObject /\ (1 <= n)%Z /\ step_pinned s (Receive n) = (s', RBytes [], lg) /\ concat (src s) <> [].
+Proof. exact receive_empty_refuted_pinned. Qed.
+Print Assumptions C16_buf_receive_empty_refuted_pinned.
+
+Theorem C16_buf_exactly_negative_refuted_pinned : exists c1 c2 n x1 x2 s1 s2 l1 l2,
+  concat c1 = concat c2 /\ (n < 0)%Z /\
+  step_pinned (fst (fst (step_pinned (init KObject c1) (Receive 1%Z)))) (Exactly n) = (s1, RBytes x1, l1) /\
+  step_pinned (fst (fst (step_pinned (init KObject c2) (Receive 1%Z)))) (Exactly n) = (s2, RBytes x2, l2) /\
+  x1 <> x2.
+Proof. exact exactly_negative_refuted_pinned. Qed.
+Print Assumptions C16_buf_exactly_negative_refuted_pinned.
 
 (* ------------------------------------------------------------------------------------------------------------ *)
 From AV Require Import Text TextProofs.
